@@ -79,6 +79,28 @@ def single_node_part(prop, oprop, tier, rng, out, known, cov):
     kinds_hist = {}
     nontriv = set()
     nfind = 0
+    # corpus of minimised earlier failures (corpus/<prop>/async_*.json), run first
+    cdir = os.path.join(common.VERIF, "corpus", prop)
+    ncorpus = 0
+    if os.path.isdir(cdir):
+        for f in sorted(os.listdir(cdir)):
+            if not (f.startswith("async_") and f.endswith(".json")):
+                continue
+            cc = json.load(open(os.path.join(cdir, f)))["case"]
+            ncorpus += 1
+            try:
+                oo = asyncfam.run_case(cc)
+            except Exception as e:
+                out.violation("%s/harness-crash/corpus" % prop, "driver crashed on corpus case %s: %r" % (f, e), {"case": cc}, no_input=True)
+                continue
+            for (p, sig, msg) in oracle(oprop, cc, oo):
+                sig = sig.replace("C05A", "C05").replace("C16A", "C16")
+                if sig in known:
+                    out.known_finding(sig, known[sig]["what"])
+                else:
+                    out.violation(sig, msg + " [corpus case %s]" % f, {"case": cc, "family": "async-single"})
+                break
+    cov["corpus_cases"] = ncorpus
     for kind in KINDS[oprop]:
         for _ in range(n_per_kind):
             c = g.case(kind)
